@@ -431,14 +431,16 @@ size_t ZCK_PUBLIC_API zck_write_zck_header_cb(void *ptr, size_t l, size_t c,
     ALLOCD_BOOL(NULL, dl_v);
     zckDL *dl = (zckDL*)dl_v;
 
-    size_t wb = 0;
     dl->dl += l*c;
     size_t loc = tell_data(dl->zck);
     zck_log(ZCK_LOG_DEBUG, "Downloading %llu bytes to position %llu",
             (long long unsigned) l*c,
             (long long unsigned) loc
     );
-    wb = write(dl->zck->fd, ptr, l*c);
+    ssize_t wb = write(dl->zck->fd, ptr, l*c);
+    /* A failed or short write must not be hidden by the user's callback */
+    if(wb < 0 || (size_t)wb != l*c)
+        return 0;
     if(dl->write_cb)
         return dl->write_cb(ptr, l, c, dl->write_data);
     return wb;
@@ -463,7 +465,8 @@ size_t ZCK_PUBLIC_API zck_write_chunk_cb(void *ptr, size_t l, size_t c, void *dl
         else
             wb = l*c;
     }
-    if(dl->write_cb)
+    /* A failed chunk write must not be hidden by the user's callback */
+    if(dl->write_cb && wb != 0)
         return dl->write_cb(ptr, l, c, dl->write_data);
     return wb;
 }
